@@ -11,6 +11,7 @@ Section MtypeInd.
   Hypothesis Hp : forall n v, P (MPlain n v).
   Hypothesis Ho : forall n v a c, P (MObject n v a c).
   Hypothesis Hs : forall n v ms, Forall (fun km => P (snd km)) ms -> P (MSet n v ms).
+  Hypothesis Hb : forall n v, P (MBroken n v).
 
   Fixpoint mtype_ind' (m : mtype) : P m :=
     match m with
@@ -22,6 +23,7 @@ Section MtypeInd.
                     | [] => Forall_nil _
                     | km :: ms' => Forall_cons km (mtype_ind' (snd km)) (go ms')
                     end) ms)
+    | MBroken n v => Hb n v
     end.
 End MtypeInd.
 
@@ -34,6 +36,7 @@ Definition guard_ok (N : nat) (i : instr) : bool :=
   | IAct a => ref_ok N (act_ref a)
   | INode _ _ => false
   | IUnless r _ body => ref_ok N r && forallb (fun a => ref_ok N (act_ref a)) body
+  | ICtx _ => false
   end.
 
 Lemma ref_ok_mono c c' r : ref_ok c r = true -> c <= c' -> ref_ok c' r = true.
@@ -41,7 +44,7 @@ Proof. destruct r as [|k]; cbn [ref_ok]; [reflexivity|]. rewrite !Nat.ltb_lt. li
 
 Lemma guard_ok_mono N N' i : guard_ok N i = true -> N <= N' -> guard_ok N' i = true.
 Proof.
-  intros H Hle. destruct i as [a|p ts|r n body]; cbn [guard_ok] in *; try discriminate.
+  intros H Hle. destruct i as [a|p ts|r n body|ca]; cbn [guard_ok] in *; try discriminate.
   - eapply ref_ok_mono; eauto.
   - apply andb_prop in H. destruct H as [H1 H2]. rewrite (ref_ok_mono _ _ _ H1 Hle). cbn [andb].
     rewrite forallb_forall in *. intros a Ha. eapply ref_ok_mono; eauto.
@@ -57,11 +60,12 @@ Lemma scoped_app : forall is1 is2 c, scoped c (is1 ++ is2) = scoped c is1 && sco
 Proof.
   induction is1 as [|i is1 IH]; intros is2 c.
   - cbn [app scoped nodes filter length andb]. rewrite Nat.add_0_r. reflexivity.
-  - destruct i as [a|p ts|r n body]; cbn [app scoped]; rewrite IH; unfold nodes; cbn [filter length].
+  - destruct i as [a|p ts|r n body|ca]; cbn [app scoped]; rewrite IH; unfold nodes; cbn [filter length].
     + rewrite andb_assoc. reflexivity.
     + rewrite andb_assoc. replace (S c + length (filter _ is1)) with (c + S (length (filter (fun i => match i with INode _ _ => true | _ => false end) is1))) by lia.
       reflexivity.
     + rewrite !andb_assoc. reflexivity.
+    + rewrite andb_assoc. reflexivity.
 Qed.
 
 Lemma guards_scoped : forall is N c, forallb (guard_ok N) is = true -> N <= c -> scoped c is = true.
@@ -69,7 +73,7 @@ Proof.
   induction is as [|i is IH]; intros N c H Hle; [reflexivity|].
   cbn [forallb] in H. apply andb_prop in H. destruct H as [Hi H].
   pose proof (guard_ok_mono _ _ _ Hi Hle) as Hi'.
-  destruct i as [a|p ts|r n body]; cbn [guard_ok scoped] in *; try discriminate.
+  destruct i as [a|p ts|r n body|ca]; cbn [guard_ok scoped] in *; try discriminate.
   - rewrite Hi'. cbn [andb]. eapply IH; eauto.
   - rewrite Hi'. cbn [andb]. eapply IH; eauto.
 Qed.
@@ -78,7 +82,7 @@ Lemma guards_nodes : forall is N, forallb (guard_ok N) is = true -> nodes is = 0
 Proof.
   induction is as [|i is IH]; intros N H; [reflexivity|].
   cbn [forallb] in H. apply andb_prop in H. destruct H as [Hi H].
-  destruct i as [a|p ts|r n body]; cbn [guard_ok] in Hi; try discriminate; unfold nodes; cbn [filter]; eapply IH; eauto.
+  destruct i as [a|p ts|r n body|ca]; cbn [guard_ok] in Hi; try discriminate; unfold nodes; cbn [filter]; eapply IH; eauto.
 Qed.
 
 Section Plan.
@@ -97,7 +101,8 @@ Section Plan.
 
   Lemma plan_set h next name v ms :
     plan auth h next (MSet name v ms) =
-    let '(ks, is, nx) := plan_list (HH next) (S next) ms in (INode h (tset_of auth name ms) :: ks, is, nx).
+    let '(ks, is, nx) := plan_list (HH next) (S next) ms in
+    (INode h (tset_of auth name ms) :: ICtx (CEnter (HH next)) :: ks ++ [ICtx CLeave], is, nx).
   Proof. reflexivity. Qed.
 
   Lemma construct_refs N tl name al ct :
@@ -106,7 +111,7 @@ Section Plan.
 
   Lemma member_instr_guard N me m : ref_ok N me = true -> guard_ok N (member_instr auth me m) = true.
   Proof.
-    intros H. destruct m as [n v|n v al ct|n v ms]; cbn [member_instr guard_ok forallb act_ref ref_ok andb]; try reflexivity.
+    intros H. destruct m as [n v|n v al ct|n v ms|n v]; cbn [member_instr guard_ok forallb act_ref ref_ok andb]; try reflexivity.
     apply construct_refs. exact H.
   Qed.
 
@@ -136,29 +141,34 @@ Section Plan.
 
   Lemma plan_all m : plan_ok m.
   Proof.
-    induction m as [n v|n v al ct|n v ms IH] using mtype_ind'; intros h next ks is nx H.
+    induction m as [n v|n v al ct|n v ms IH|n v] using mtype_ind'; intros h next ks is nx H.
+    4: { cbn [plan] in H. injection H as <- <- <-. cbn. split; [lia|]. split; reflexivity. }
     - cbn [plan] in H. injection H as <- <- <-. cbn. split; [lia|]. split; reflexivity.
     - cbn [plan] in H. injection H as <- <- <-. cbn. split; [lia|]. split; reflexivity.
     - rewrite plan_set in H. destruct (plan_list (HH next) (S next) ms) as [[k1 i1] n1] eqn:E.
       injection H as <- <- <-.
       destruct (plan_list_ok ms IH (HH next) (S next) k1 i1 n1 E) as (Hn & Hs & Hg).
       { cbn [ref_ok]. apply Nat.ltb_lt. lia. }
-      split; [unfold nodes in *; cbn [filter length]; lia|]. split; [|exact Hg].
-      intros Hh. cbn [scoped]. rewrite Hh, Hs. reflexivity.
+      split; [unfold nodes in *; cbn [filter length]; rewrite filter_app, app_length; cbn [filter length]; lia|]. split; [|exact Hg].
+      intros Hh. assert (Hlt : Nat.ltb next (S next) = true) by (apply Nat.ltb_lt; lia).
+      cbn [scoped ref_ok]. rewrite Hh, Hlt, scoped_app, Hs. reflexivity.
   Qed.
 
   Lemma phase1_guards : forall ts, forallb (guard_ok 0) (phase1 auth ts) = true.
-  Proof. induction ts as [|[n v|n v al ct|n v ms] ts IH]; cbn [phase1 forallb guard_ok act_ref ref_ok andb]; auto. Qed.
+  Proof. induction ts as [|[n v|n v al ct|n v ms|n v] ts IH]; cbn [phase1 forallb guard_ok act_ref ref_ok andb]; auto. Qed.
 
   Lemma phase3_guards : forall ts, forallb (guard_ok 0) (phase3 auth ts) = true.
-  Proof. induction ts as [|[n v|n v al ct|n v ms] ts IH]; cbn [phase3 forallb guard_ok act_ref ref_ok andb]; auto. Qed.
+  Proof. induction ts as [|[n v|n v al ct|n v ms|n v] ts IH]; cbn [phase3 forallb guard_ok act_ref ref_ok andb]; auto. Qed.
 
   Lemma phase2_ok : forall ts next a b, phase2 auth next ts = (a, b) ->
     scoped next a = true /\ forallb (guard_ok (next + nodes a)) b = true.
   Proof.
     induction ts as [|t ts IH]; intros next a b H; cbn [phase2] in H.
     - injection H as <- <-. cbn. split; reflexivity.
-    - destruct t as [n v|n v al ct|n v ms].
+    - destruct t as [n v|n v al ct|n v ms|n v].
+      4: { destruct (phase2 auth next ts) as [a1 b1] eqn:E. injection H as <- <-.
+           destruct (IH next a1 b1 E) as [Hs Hg].
+           split; [cbn [scoped andb]; exact Hs|unfold nodes in *; cbn [filter]; exact Hg]. }
       + eapply IH; eauto.
       + destruct (phase2 auth next ts) as [a1 b1] eqn:E. injection H as <- <-.
         destruct (IH next a1 b1 E) as [Hs Hg].
